@@ -148,14 +148,12 @@ def _check(case, acc, workdir):
              outcome='%s:%s' % (tool, entry))
     try:
         out = run_tool(tool, entry, data, a, b, fin, fout, workdir)
-    except BaseException as ex:      # argparse exits with SystemExit
-        if isinstance(ex, KeyboardInterrupt):
-            raise
+    except (Exception, SystemExit) as ex:      # argparse exits with SystemExit
         acc.viol('c19.%s.%s.exception' % (tool, entry), case, repr(ex), 'a converted file')
         return
     src_recs, stop1 = raw_records(data, fin)
     out_recs, stop2 = raw_records(out, fout)
-    if stop2 != 'terminator' or (fout == '1014' and blk_ref.wellformed(out)):
+    if stop2 not in ('terminator', 'eof', 'short_prefix') or (fout == '1014' and blk_ref.wellformed(out)):
         acc.viol('c19.%s.output_malformed' % tool, case, 'output ends with %s / %s' % (stop2, blk_ref.wellformed(out)
                                                                                        if fout == '1014' else ''),
                  'a finalised %s file' % fout)
@@ -192,9 +190,7 @@ def _check(case, acc, workdir):
     try:
         back = run_tool(tool, 'func' if tool not in ('mideu',) else 'cli_run', out, b, a, fout, fin, workdir) \
             if not (tool == 'mideu' and fin != fout) else None
-    except BaseException as ex:
-        if isinstance(ex, KeyboardInterrupt):
-            raise
+    except (Exception, SystemExit) as ex:
         acc.viol('c19.%s.return_trip.exception' % tool, case, repr(ex), 'the original file')
         return
     if back is not None and back != data:
